@@ -725,6 +725,13 @@ func genConstructive(r *common.RNG, id string, cli bool) (*Case, *Planted) {
 			c.Lines = append(c.Lines, x.marker())
 			continue
 		}
+		if r.Chance(1, 7) {
+			// phase comments anywhere, also right in front of and behind a failing line: the
+			// rewinding of the log must not change the verdict or the reported line number
+			c.Lines = append(c.Lines, pick(r, []string{"# phase", "#", "# next phase " + fmt.Sprint(len(c.Lines))}))
+			ex = evaluate(c)
+			continue
+		}
 		n := len(c.Lines) + 1
 		x := &genCtx{r: r, c: c, g: ex.Final, n: n, cond: cond}
 		wantFail := plantAt != 0 && n >= plantAt && pl.FailAt == 0
